@@ -106,6 +106,13 @@ def agrees(static, dyn):
     return all(d == static or (d == "list" and static.startswith("list")) for d in dyn)
 
 
+# fixed programs recorded as findings before the "no-error-reported" suffix existed: their keys stay as they are
+OLD_FIXED_KEYS = {"unary-plus", "integer-literal", "sum-of-empty", "if-else-secret-condition", "return-annotation-unchecked",
+                  "nested-list-annotation", "element-assignment-of-another-type", "loop-carried-type", "empty-range-body",
+                  "list-called-as-function", "sum-of-public-list", "sum-of-literal-list", "typed-constructor-of-int",
+                  "comprehension-variable-used-afterwards", "comprehension-variable-shadows-a-name"}
+
+
 def run(ctx):
     ok_x = vlib.step_extract(ctx)
     ok_p = vlib.step_prove(ctx) if ok_x else False
@@ -132,7 +139,8 @@ def run(ctx):
             if kind == "sum-of-empty" or (node == "Call" and s0 == "SecretInteger" and d0 == ["int"]):
                 key = "C14/type:sum-of-empty"
             elif kind in fixed_kinds:
-                key = f"C14/type:{kind}"
+                # whether the checker reported an error elsewhere in the program is part of what fails
+                key = f"C14/type:{kind}" + ("" if not clean or kind in OLD_FIXED_KEYS else ":no-error-reported")
             else:
                 key = f"C14/type:{node}:{s0}->{'|'.join(d0)}"
             vlib.report_failure(ctx, key, f"static type {s0} at {k0}, but abstract execution binds {d0} there",
